@@ -61,6 +61,9 @@ def corpus():
                  'par_ts': 1, 'run': [6], 'bystander': True})
     base.append({'kind': 'shutdown', 'ends': 2, 'last_forced': True, 'kill': 'delete', 'kill_at': 2,
                  'par_ts': 3, 'run': [4]})
+    # F47: a compartment with an idle parallel process is moved to another store and goes on there
+    base.append({'kind': 'shutdown', 'ends': 1, 'last_forced': True, 'kill': 'move', 'kill_at': 2,
+                 'par_ts': 1, 'run': [5]})
     # F37: parallel daughters (timestep 5) in flight when the next structural update rebuilds the views
     base.append({'kind': 'shutdown', 'ends': 1, 'last_forced': True, 'kill': 'divide', 'kill_at': 1,
                  'par_ts': 5, 'run': [7], 'second_change': True})
@@ -88,6 +91,13 @@ def generate(rng, n, tier):
             c['kind'] = 'transparent'
             out.append(c)
         else:
+            if rng.random() < 0.15:
+                # a move (the parallel process idle at every tick: timestep 1; a move with an update in flight is
+                # the known finding F19 of C10)
+                out.append({'kind': 'shutdown', 'ends': rng.choice([0, 1, 2]), 'last_forced': True, 'kill': 'move',
+                            'kill_at': rng.choice([1, 2, 3]), 'par_ts': 1, 'run': [rng.choice([4, 5])],
+                            'bystander': rng.random() < 0.4})
+                continue
             out.append({'kind': 'shutdown', 'ends': rng.choice([0, 1, 1, 2]),
                         'last_forced': rng.random() < 0.5,
                         'kill': rng.choice([None, 'delete', 'delete', 'divide']),
@@ -127,10 +137,16 @@ def _shutdown_run(case, obs):
         killer = None
         if case['kill']:
             killer = Killer({'at': case['kill_at'], 'mode': case['kill'], 'daughter_ts': case['par_ts']})
+        killer_topo = {'agents': ('agents',)}
+        if case['kill'] == 'move':
+            # the compartment moves to another store: its (idle) parallel process goes on there (F47)
+            killer_topo['agents2'] = ('agents2',)
+            processes['agents2'] = {'keep': {'p': TickProcess({'ts': 1, 'var': 'k'})}}
+            topology['agents2'] = {'keep': {'p': {'vars': ('vars',)}}}
         if killer is not None and case.get('killer_first'):
             # the deleting update is applied BEFORE the parallel process's own update of the same batch
             processes['killer'] = killer
-            topology['killer'] = {'agents': ('agents',)}
+            topology['killer'] = dict(killer_topo)
         processes['agents'] = agents
         topology['agents'] = agents_topo
         processes['watch'] = TickProcess({'ts': 1, 'var': 'w'})
@@ -156,7 +172,7 @@ def _shutdown_run(case, obs):
             topology['uleak'] = {'vars': ('vars',)}
         if killer is not None and not case.get('killer_first'):
             processes['killer'] = killer
-            topology['killer'] = {'agents': ('agents',)}
+            topology['killer'] = dict(killer_topo)
         if killer is not None and case.get('second_change'):
             # one tick later another structural update: parallel processes created by the first one (daughters of
             # the division) are in flight when the views are rebuilt (F37)
@@ -172,6 +188,9 @@ def _shutdown_run(case, obs):
                 eng.update(iv)
         obs['gt'] = eng.global_time
         obs['agents'] = sorted((eng.state.get_value().get('agents') or {}).keys())
+        if case['kill'] == 'move':
+            moved = (eng.state.get_value().get('agents2') or {}).get('cell')
+            obs['moved_x'] = None if moved is None else moved['vars']['x']
         if case.get('override'):
             obs['ov'] = eng.state.get_value()['vars']['ov']
         if case.get('units'):
@@ -268,6 +287,9 @@ def oracle(case, impl):
         if case.get('override') and not o.get('raised') and o.get('gt', 0) >= 1 and o.get('ov') != 1:
             fails.append(f'transparent: the schema override of a parallel process (updater `set`) is not in force: its '
                          f'variable holds {o.get("ov")} after {o.get("gt")} time units, `set` leaves 1')
+        if case['kill'] == 'move' and not o.get('raised') and o.get('moved_x') != o.get('gt'):
+            fails.append(f'transparent: the compartment was moved at t={case["kill_at"]}; its parallel process (+1 per '
+                         f'time unit) has counted {o.get("moved_x")} by t={o.get("gt")}')
         if case['kill'] == 'delete' and not o.get('raised') and 'cell' in o.get('agents', []) \
                 and sum(case['run']) >= case['kill_at']:
             fails.append('delete: the compartment is still there')
